@@ -53,6 +53,12 @@ pub fn drive(args: &[String]) {
             }
         }
     }
+    // encoders that live through the whole run: what a command is encoded to must not depend on what the encoder
+    // resolved before (each colour is sent in every role, in changing order, and compared with a fresh encoder)
+    let mut pers: Vec<(ColorDepth, TTYEncoder)> = [ColorDepth::EightBit, ColorDepth::Gray, ColorDepth::TrueColor]
+        .into_iter()
+        .map(|d| (d, TTYEncoder::new(TerminalCaps { depth: d, ..TerminalCaps::default() })))
+        .collect();
     for (k, (r, g, bs)) in rgs.into_iter().enumerate() {
         if k as u64 % of != shard {
             continue;
@@ -60,8 +66,29 @@ pub fn drive(args: &[String]) {
         let res = guarded(|| {
             let (mut e8f, mut e8b, mut e8u, mut gf, mut gb, mut tcf) = (vec![], vec![], vec![], vec![], vec![], vec![]);
             let mut ok = true;
+            let mut hist = true;
             for b in &bs {
                 let c = RGBA::new(r, g, *b, 255);
+                if *b % 4 == (r ^ g) % 4 {
+                    let c2 = RGBA::new(*b, r, g, 255);
+                    let um = |x: RGBA| TerminalCommand::FaceModify(FaceModify { underline_color: Some(x), ..FaceModify::default() });
+                    let cmds = [
+                        TerminalCommand::Face(Face::new(Some(c), Some(c2), FaceAttrs::EMPTY)),
+                        TerminalCommand::Face(Face::new(Some(c2), Some(c), FaceAttrs::EMPTY)),
+                        um(c),
+                        TerminalCommand::FaceModify(FaceModify { fg: Some(c2), bg: Some(c2), ..FaceModify::default() }),
+                        um(c2),
+                        TerminalCommand::Face(Face::new(Some(c), Some(c), FaceAttrs::EMPTY)),
+                    ];
+                    for (d, e) in pers.iter_mut() {
+                        for i in 0..cmds.len() {
+                            let cmd = cmds[(i + *b as usize) % cmds.len()].clone();
+                            let mut o = Vec::new();
+                            e.encode(&mut o, cmd.clone()).unwrap();
+                            hist &= o == enc(*d, cmd);
+                        }
+                    }
+                }
                 let p = sgr_params(&enc(ColorDepth::EightBit, TerminalCommand::Face(Face::new(Some(c), None, FaceAttrs::EMPTY)))).unwrap_or_default();
                 ok &= p.len() == 4 && p[..3] == [0, 38, 5];
                 e8f.push(*p.last().unwrap_or(&0));
@@ -102,11 +129,11 @@ pub fn drive(args: &[String]) {
                     ok &= f1.len() == 3 && b1.len() == 3 && u1.len() == 3 && has(&p8, &f1) && has(&p8, &b1) && has(&p8, &u1);
                 }
             }
-            (e8f, e8b, e8u, gf, gb, tcf, ok)
+            (e8f, e8b, e8u, gf, gb, tcf, ok, hist)
         });
         match res {
-            Ok((e8f, e8b, e8u, gf, gb, tcf, ok)) => out.rec(&json!({"id": id, "r": r, "g": g, "bs": bs, "e8f": e8f, "e8b": e8b, "e8u": e8u, "gf": gf, "gb": gb, "tcf": tcf, "ok": ok, "panic": ""})),
-            Err(m) => out.rec(&json!({"id": id, "r": r, "g": g, "bs": bs, "e8f": [], "e8b": [], "e8u": [], "gf": [], "gb": [], "tcf": [], "ok": false, "panic": m})),
+            Ok((e8f, e8b, e8u, gf, gb, tcf, ok, hist)) => out.rec(&json!({"id": id, "r": r, "g": g, "bs": bs, "e8f": e8f, "e8b": e8b, "e8u": e8u, "gf": gf, "gb": gb, "tcf": tcf, "ok": ok, "hist": hist, "panic": ""})),
+            Err(m) => out.rec(&json!({"id": id, "r": r, "g": g, "bs": bs, "e8f": [], "e8b": [], "e8u": [], "gf": [], "gb": [], "tcf": [], "ok": false, "hist": true, "panic": m})),
         }
         id += of;
     }
